@@ -329,7 +329,24 @@ func main() {
 			if d.done {
 				continue
 			}
-			cs := reductions(&d.spec)
+			// a reduction must build and must not introduce a feature the current type does not show
+			have := featuresOf(&d.spec)
+			var cs []TSpec
+			for _, c := range reductions(&d.spec) {
+				if _, berr := buildType(&c); berr != "" {
+					continue
+				}
+				ok := true
+				for f := range featuresOf(&c) {
+					if !have[f] && !carriers[f] {
+						ok = false
+						break
+					}
+				}
+				if ok {
+					cs = append(cs, c)
+				}
+			}
 			if len(cs) == 0 {
 				d.done = true
 				continue
